@@ -323,10 +323,18 @@ func runC18(c *run.Ctx) {
 		Got    string `json:"got,omitempty"`
 		Err    string `json:"err,omitempty"`
 	}
+	defer func() { ggql.MaxResolveDepth = 100 }()
 	for i := 0; i < n && !c.TooMany(); i++ {
 		r := c.Rand(i)
 		feats := map[string]bool{}
 		var v interface{}
+		// the package-level switch that limits the depth of REQUEST resolution is none of the value reader's or writer's
+		// business: an application that lowers it still reads back every value it wrote
+		ggql.MaxResolveDepth = 100
+		if i%40 == 7 {
+			ggql.MaxResolveDepth = 2 + r.Intn(3)
+			feats["MaxResolveDepth-lowered-while-values-are-written-and-read"] = true
+		}
 		invalid := i%25 == 24
 		if invalid {
 			s := c18InvalidUTF8(r)
@@ -365,7 +373,7 @@ func runC18(c *run.Ctx) {
 				v = l
 			default:
 				var cur interface{} = c18Value(r, 1, feats)
-				for k := 0; k < 20+m/4; k++ {
+				for k := 0; k < 20+m/2; k++ { // 50 to 170 levels
 					if k%2 == 0 {
 						cur = []interface{}{cur}
 					} else {
